@@ -4,6 +4,7 @@ import (
 	"fmt"
 	"go/ast"
 	"go/parser"
+	"go/printer"
 	"go/token"
 	"go/types"
 	"sort"
@@ -1721,4 +1722,273 @@ func keeps(n int) []float64 {
 		}
 	}
 	r.Count("E7.pool-put-escapes", n)
+}
+
+// cachedObjectWrites finds, in a set of type-checked files, writes through a pointer that a function handed out
+// from a package-level cache. fds: all function declarations with their info.
+type cowFunc struct {
+	fd   *ast.FuncDecl
+	info *types.Info
+	pkg  *types.Package
+	name string
+}
+
+func cachedObjectWrites(fns []cowFunc, src func(ast.Node) string, report func(pos token.Pos, fn, loader, lhs string)) {
+	isPkgCache := func(info *types.Info, pkg *types.Package, e ast.Expr) bool {
+		id, ok := core.Unparen(e).(*ast.Ident)
+		if !ok {
+			return false
+		}
+		v, ok := info.Uses[id].(*types.Var)
+		if !ok || v.Pkg() == nil || v.Parent() != v.Pkg().Scope() {
+			return false
+		}
+		if _, isMap := v.Type().Underlying().(*types.Map); isMap {
+			return true
+		}
+		if nt, ok := v.Type().(*types.Named); ok && nt.Obj().Name() == "Map" && nt.Obj().Pkg() != nil && nt.Obj().Pkg().Name() == "sync" {
+			return true
+		}
+		return false
+	}
+	strip := func(e ast.Expr) ast.Expr {
+		for {
+			e = core.Unparen(e)
+			if ta, ok := e.(*ast.TypeAssertExpr); ok {
+				e = ta.X
+				continue
+			}
+			return e
+		}
+	}
+	returners := map[*types.Func]string{}
+	// direct: returns something read from, or stored into, a package-level cache
+	for _, f := range fns {
+		fobj, _ := f.info.Defs[f.fd.Name].(*types.Func)
+		if fobj == nil || f.fd.Body == nil {
+			continue
+		}
+		fromCache := map[types.Object]string{}
+		ast.Inspect(f.fd.Body, func(n ast.Node) bool {
+			switch x := n.(type) {
+			case *ast.AssignStmt:
+				if len(x.Rhs) == 1 && len(x.Lhs) >= 1 {
+					if id, ok := x.Lhs[0].(*ast.Ident); ok {
+						rhs := strip(x.Rhs[0])
+						switch y := rhs.(type) {
+						case *ast.CallExpr:
+							if se, ok := y.Fun.(*ast.SelectorExpr); ok && se.Sel.Name == "Load" && isPkgCache(f.info, f.pkg, se.X) {
+								fromCache[core.ObjOf(f.info, id)] = src(se.X)
+							}
+						case *ast.IndexExpr:
+							if isPkgCache(f.info, f.pkg, y.X) {
+								fromCache[core.ObjOf(f.info, id)] = src(y.X)
+							}
+						}
+					}
+				}
+				// G[k] = v
+				for i, l := range x.Lhs {
+					if ie, ok := core.Unparen(l).(*ast.IndexExpr); ok && isPkgCache(f.info, f.pkg, ie.X) && i < len(x.Rhs) {
+						if id, ok := core.Unparen(x.Rhs[i]).(*ast.Ident); ok {
+							fromCache[core.ObjOf(f.info, id)] = src(ie.X)
+						}
+					}
+				}
+			case *ast.CallExpr:
+				// G.Store(k, v)
+				if se, ok := x.Fun.(*ast.SelectorExpr); ok && se.Sel.Name == "Store" && len(x.Args) == 2 && isPkgCache(f.info, f.pkg, se.X) {
+					if id, ok := core.Unparen(x.Args[1]).(*ast.Ident); ok {
+						fromCache[core.ObjOf(f.info, id)] = src(se.X)
+					}
+				}
+			}
+			return true
+		})
+		ast.Inspect(f.fd.Body, func(n ast.Node) bool {
+			if _, ok := n.(*ast.FuncLit); ok {
+				return false
+			}
+			rs, ok := n.(*ast.ReturnStmt)
+			if !ok {
+				return true
+			}
+			for _, res := range rs.Results {
+				if id, ok := strip(res).(*ast.Ident); ok {
+					if g, ok := fromCache[core.ObjOf(f.info, id)]; ok {
+						if _, isPtr := f.info.TypeOf(res).Underlying().(*types.Pointer); isPtr {
+							returners[fobj] = g
+						}
+					}
+				}
+			}
+			return true
+		})
+	}
+	// transitive: returns the result of a returner
+	for changed := true; changed; {
+		changed = false
+		for _, f := range fns {
+			fobj, _ := f.info.Defs[f.fd.Name].(*types.Func)
+			if fobj == nil || f.fd.Body == nil || returners[fobj] != "" {
+				continue
+			}
+			holds := map[types.Object]string{}
+			ast.Inspect(f.fd.Body, func(n ast.Node) bool {
+				if as, ok := n.(*ast.AssignStmt); ok && len(as.Rhs) == 1 {
+					if call, ok := core.Unparen(as.Rhs[0]).(*ast.CallExpr); ok {
+						if g := returners[core.CalleeOf(f.info, call)]; g != "" {
+							if id, ok := as.Lhs[0].(*ast.Ident); ok {
+								holds[core.ObjOf(f.info, id)] = g
+							}
+						}
+					}
+				}
+				return true
+			})
+			ast.Inspect(f.fd.Body, func(n ast.Node) bool {
+				rs, ok := n.(*ast.ReturnStmt)
+				if !ok {
+					return true
+				}
+				for _, res := range rs.Results {
+					g := ""
+					switch y := core.Unparen(res).(type) {
+					case *ast.CallExpr:
+						g = returners[core.CalleeOf(f.info, y)]
+					case *ast.Ident:
+						g = holds[core.ObjOf(f.info, y)]
+					}
+					if g != "" && returners[fobj] == "" {
+						returners[fobj] = g
+						changed = true
+					}
+				}
+				return true
+			})
+		}
+	}
+	// writes through a handed-out pointer
+	for _, f := range fns {
+		if f.fd.Body == nil {
+			continue
+		}
+		holds := map[types.Object]*types.Func{}
+		ast.Inspect(f.fd.Body, func(n ast.Node) bool {
+			if as, ok := n.(*ast.AssignStmt); ok && len(as.Rhs) == 1 {
+				if call, ok := core.Unparen(as.Rhs[0]).(*ast.CallExpr); ok {
+					if callee := core.CalleeOf(f.info, call); callee != nil && returners[callee] != "" {
+						if id, ok := as.Lhs[0].(*ast.Ident); ok {
+							holds[core.ObjOf(f.info, id)] = callee
+						}
+					}
+				}
+			}
+			return true
+		})
+		if len(holds) == 0 {
+			continue
+		}
+		chk := func(l ast.Expr) {
+			se, ok := core.Unparen(l).(*ast.SelectorExpr)
+			if !ok {
+				return
+			}
+			if id, ok := core.Unparen(se.X).(*ast.Ident); ok {
+				if callee := holds[core.ObjOf(f.info, id)]; callee != nil {
+					report(l.Pos(), f.name, callee.Name()+" ("+returners[callee]+")", src(l))
+				}
+			}
+		}
+		ast.Inspect(f.fd.Body, func(n ast.Node) bool {
+			switch x := n.(type) {
+			case *ast.AssignStmt:
+				for _, l := range x.Lhs {
+					chk(l)
+				}
+			case *ast.IncDecStmt:
+				chk(x.X)
+			}
+			return true
+		})
+	}
+}
+
+// E7CachedObjectWritten: an object handed out from a package-level cache is shared by all callers and is not written.
+func E7CachedObjectWritten(c *core.Ctx, r *core.Report) {
+	r.Rule("E7.cached-object-written", "a function that returns a pointer it read from, or stored into, a package-level cache (sync.Map, or a package-level map) hands the same object to every caller, in every goroutine; so does a function that returns such a function's result. No caller assigns to a field of the object it received: `font, _ := LoadFontFile(name, style); font.name = family.name` renames the font of every family that loaded the same file, and two goroutines doing so race. Module-wide; built-in example on every run (no loader returns cached objects today)")
+	{
+		src := `package sync
+type Map struct{}
+func (m *Map) Load(k any) (any, bool) { return nil, false }
+func (m *Map) Store(k, v any) {}
+type Font struct{ name string; size int }
+var files Map
+var byName = map[string]*Font{}
+func load(file string) (*Font, error) {
+	if f, ok := files.Load(file); ok { return f.(*Font), nil }
+	font := &Font{}
+	files.Store(file, font)
+	return font, nil
+}
+func loadSystem(name string) (*Font, error) { return load("/fonts/" + name) }
+func fresh(file string) *Font { return &Font{} }
+func lookup(n string) *Font { f := byName[n]; return f }
+type Family struct{ name string }
+func (fam *Family) Load(file string) { font, _ := loadSystem(file); font.name = fam.name }
+func (fam *Family) LoadFresh(file string) { font := fresh(file); font.name = fam.name }
+func (fam *Family) Bump(n string) { f := lookup(n); f.size++ }
+`
+		fset := token.NewFileSet()
+		f, err := parser.ParseFile(fset, "selftest.go", src, 0)
+		if err != nil {
+			panic(core.Infra("cached-object self-test does not parse: " + err.Error()))
+		}
+		info := &types.Info{Types: map[ast.Expr]types.TypeAndValue{}, Uses: map[*ast.Ident]types.Object{}, Defs: map[*ast.Ident]types.Object{}, Selections: map[*ast.SelectorExpr]*types.Selection{}}
+		pkg, err := (&types.Config{}).Check("sync", fset, []*ast.File{f}, info)
+		if err != nil {
+			panic(core.Infra("cached-object self-test does not type-check: " + err.Error()))
+		}
+		var fns []cowFunc
+		for _, d := range f.Decls {
+			if fd, ok := d.(*ast.FuncDecl); ok {
+				fns = append(fns, cowFunc{fd, info, pkg, fd.Name.Name})
+			}
+		}
+		got := ""
+		cachedObjectWrites(fns, func(n ast.Node) string {
+			var b strings.Builder
+			printer.Fprint(&b, fset, n)
+			return b.String()
+		}, func(_ token.Pos, fn, loader, lhs string) {
+			got += fn + ":" + lhs + "<-" + loader + " "
+		})
+		if got != "Load:font.name<-loadSystem (files) Bump:f.size<-lookup (byName) " {
+			panic(core.Infra("cached-object self-test: recogniser answers `" + got + "`"))
+		}
+		r.Count("E7.cached-object-selftest", 2)
+	}
+	var fns []cowFunc
+	for _, rel := range modulePkgRels {
+		p := c.MustPkg(rel)
+		pk := "canvas"
+		if rel != "" {
+			pk = rel
+		}
+		for _, fd := range core.AllFuncDecls(p) {
+			if strings.HasSuffix(c.Fset.Position(fd.Pos()).Filename, "_test.go") {
+				continue
+			}
+			fns = append(fns, cowFunc{fd, p.TypesInfo, p.Types, pk + "." + core.FuncName(fd)})
+		}
+	}
+	n := 0
+	cachedObjectWrites(fns, func(nd ast.Node) string { return c.Src(nd) }, func(pos token.Pos, fn, loader, lhs string) {
+		n++
+		r.Fail("E7.cached-object-written", fmt.Sprintf("%s|%s written, object from %s", fn, lhs, loader), c.Pos(pos), fmt.Sprintf("`%s` is assigned, but the object came from %s, which returns entries of a package-level cache: every other holder of that entry — another font family, another goroutine — sees the change, and concurrent callers race", lhs, loader))
+	})
+	r.Count("E7.cached-object-functions", len(fns))
+	r.Floor("E7.cached-object-functions", 500)
+	r.Floor("E7.cached-object-selftest", 2)
+	r.OK("E7.cached-object-written", "module|objects handed out from package-level caches", c.Pos(c.MustPkg("").Syntax[0].Pos()), fmt.Sprintf("%d functions, %d writes through a cached object", len(fns), n))
 }
